@@ -225,3 +225,126 @@ def own2_subset(ctx, methods, clause, rule="OWN-2"):
         else:
             ctx.ob(rule, m, f"write effects of {m.name}", m.node, True,
                    "no write reaches receiver or arguments", clause=clause)
+
+
+# ----------------------------------------------------------------- STATE-read
+def state_read(ctx, roots, clause, rule="STATE"):
+    """The result of the given methods depends on the columns and the arguments only: the grouping state left
+    behind by an earlier group_by() on the same object (``_group_colnames``) is read by aggregate/modify alone."""
+    repo = ctx.repo
+    reach = reachable_functions(repo, roots)
+    n = 0
+    for q, f in sorted(reach.items()):
+        if f.module.name != "dataiter.data_frame":
+            continue
+        n += 1
+        reads = [x for x in body_nodes(f.node) if isinstance(x, ast.Attribute) and x.attr == "_group_colnames"
+                 and isinstance(x.ctx, ast.Load)]
+        # group_by -> aggregate/modify are the designated readers; they are not reachable from the subsetting methods
+        ctx.ob(rule, f, f"hidden grouping state read in {f.name}", reads[0] if reads else f.node, not reads,
+               "no read of _group_colnames" if not reads else
+               f"{norm(reads[0])} is read: group_by() stores the grouping on the frame itself and returns the same object, so "
+               f"after data.group_by(...).aggregate(...) a later call of this method on data silently depends on that earlier call",
+               nontrivial=bool(reads) or f in roots, clause=clause)
+    return n
+
+
+# ------------------------------------------------------------------ GRD-bcast
+def grd_broadcast(ctx, roots, clause, rule="GRD-empty"):
+    """DataFrameColumn(<one element>, ..., nrow=N) broadcasts -- and its constructor rejects N < 1.  Where a
+    one-element literal is broadcast to a row count, that count needs a provable lower bound of 1 (or the
+    call needs another construction, e.g. Vector.fast([v]).repeat(N), which is total)."""
+    repo = ctx.repo
+    ctor = repo.functions.get("dataiter.data_frame.DataFrameColumn.__new__")
+    if ctor is None:
+        raise AnalysisError("anchor vanished: DataFrameColumn.__new__")
+    # arm the rule from the constructor's own precondition: raise under `nrow < 1`
+    armed = False
+    for n in body_nodes(ctor.node):
+        if isinstance(n, ast.Raise):
+            if any(("nrow < 1" in t or "nrow <= 0" in t or "nrow == 0" in t) for k, t in facts_at(ctor, n)):
+                armed = True
+    ctx.note(f"GRD-bcast: DataFrameColumn.__new__ {'rejects' if armed else 'accepts'} broadcasting to fewer than 1 row")
+    if not armed:
+        return 0
+    reach = reachable_functions(repo, roots)
+    k = 0
+    for q, f in sorted(reach.items()):
+        if f.parent is not None or f.module.name != "dataiter.data_frame":
+            continue
+        for fn, c in calls_in(f):
+            d = repo.dotted(fn, c.func)
+            if d != "dataiter.data_frame.DataFrameColumn":
+                continue
+            nrow = next((kk.value for kk in c.keywords if kk.arg == "nrow"), c.args[2] if len(c.args) > 2 else None)
+            if nrow is None or not c.args:
+                continue
+            a = c.args[0]
+            single = (isinstance(a, (ast.List, ast.Tuple)) and len(a.elts) == 1 and not isinstance(a.elts[0], ast.Starred)) \
+                or (isinstance(a, ast.Constant) and not isinstance(a.value, (str, bytes)))
+            if not single:
+                continue
+            k += 1
+            lb = lower_bound(repo, fn, nrow, c)
+            ok = lb is not None and lb >= 1
+            ctx.ob(rule, fn, norm(c), c, ok,
+                   f"row count {norm(nrow)} has lower bound {lb}" if ok else
+                   f"a single element is broadcast to {norm(nrow)} rows, which may be 0 (lower bound {lb}): DataFrameColumn "
+                   f"raises 'Bad arguments for broadcast' for nrow < 1, so the operation fails on an empty frame",
+                   clause=clause)
+    return k
+
+
+# ------------------------------------------------------------------- MEMO-key
+STD_CACHES = {"functools.lru_cache", "functools.cache"}     # keyed on all positional and keyword arguments
+
+
+def memo_keys(ctx, module_names, clause, rule="MEMO-key"):
+    """A memoised function is a function of its cache key: every decorator defined in the repository that stores
+    results in a container must build the key from ALL parameters of its wrapper."""
+    repo = ctx.repo
+    n_cached = 0
+    for q, f in sorted(repo.functions.items()):
+        if f.module.name not in module_names or not f.decorator_nodes:
+            continue
+        for dnode, dname in zip(f.decorator_nodes, f.decorators):
+            if dname in STD_CACHES:
+                n_cached += 1
+                ctx.ob(rule, f, f"@{norm(dnode)} on {f.name}", dnode, True,
+                       f"{dname} keys on every positional and keyword argument", nontrivial=False, clause=clause)
+                continue
+            dec = repo.functions.get(dname) if dname else None
+            if dec is None:
+                continue
+            for w in dec.nested.values():
+                params = set(w.params) | set(w.kwonly) | ({w.vararg} if w.vararg else set()) | ({w.kwarg} if w.kwarg else set())
+                stores = []
+                for x in body_nodes(w.node):
+                    if isinstance(x, ast.Assign) and isinstance(x.targets[0], ast.Subscript) and isinstance(x.targets[0].value, ast.Name):
+                        cname = x.targets[0].value.id
+                        # the container lives in the decorator's scope (a closure variable), not in the wrapper
+                        if cname in params or any(isinstance(y, ast.Name) and y.id == cname and isinstance(y.ctx, ast.Store)
+                                                  for y in body_nodes(w.node)):
+                            continue
+                        stores.append(x)
+                for st in stores:
+                    n_cached += 1
+                    key = st.targets[0].slice
+                    knames = set()
+                    for e in [key] + [d.value for nm in {y.id for y in ast.walk(key) if isinstance(y, ast.Name)}
+                                      for d in defs_reaching(w, nm, st) if d.value is not None]:
+                        knames |= {y.id for y in ast.walk(e) if isinstance(y, ast.Name)}
+                    missing = params - knames
+                    # parameters of the wrapper that cannot carry anything the decorated function accepts are irrelevant
+                    if w.kwarg in missing and not (f.kwarg or f.kwonly or len(f.params) > len(w.params)):
+                        missing.discard(w.kwarg)
+                    if w.vararg in missing and not (f.vararg or len(f.params) > len(w.params)):
+                        missing.discard(w.vararg)
+                    missing = sorted(missing)
+                    ctx.ob(rule, f, f"@{dec.name}: {norm(st.targets[0])} keyed on {norm(key)}", dnode, not missing,
+                           f"the cache key covers every parameter of {dec.name}.{w.name}" if not missing else
+                           f"{f.name} is memoised by {dec.qualname}, whose cache key {norm(key)} leaves out {missing}: calls that "
+                           f"differ only in those arguments share one cache entry, so the first value seen in the process "
+                           f"(e.g. the first ddof) is reused for all later ones",
+                           clause=clause)
+    return n_cached
